@@ -239,4 +239,118 @@ theorem stuck_detected (ring : List Sec) (n : Nat) (zones : List Nat) (rf : Nat)
         · simp only [ht, if_true]; exact ih _ _ hsub' (by omega) (by omega)
         · simp only [ht, if_false, hz, if_true]; exact ih _ _ hsub' (by omega) (by omega)
 
+/-! ### zone balance -/
+
+theorem cnt_append (z : Nat) (chosen : List Sec) (rep : Sec) :
+    cnt z (chosen ++ [rep]) = cnt z chosen + (if rep.az = z then 1 else 0) := by
+  simp only [cnt, List.countP_append, List.countP_cons, List.countP_nil, beq_iff_eq]
+  omega
+
+theorem least_mono (chosen : List Sec) (rep : Sec) : ∀ zones : List Nat,
+    least chosen zones ≤ least (chosen ++ [rep]) zones
+  | [] => by simp [least]
+  | z :: zs => by
+    have ih := least_mono chosen rep zs
+    have := cnt_append z chosen rep
+    simp only [least]
+    split at this <;> omega
+
+theorem least_le_of_mem (chosen : List Sec) {z : Nat} : ∀ {zones : List Nat}, z ∈ zones →
+    least chosen zones ≤ cnt z chosen
+  | [], h => by simp at h
+  | y :: ys, h => by
+    simp only [List.mem_cons] at h
+    simp only [least]
+    rcases h with rfl | h
+    · omega
+    · have := least_le_of_mem chosen h
+      omega
+
+/-- no configured zone is more than one replica ahead of the least occupied one -/
+def Bal (zones : List Nat) (chosen : List Sec) : Prop :=
+  ∀ z ∈ zones, cnt z chosen ≤ least chosen zones + 1
+
+theorem bal_nil (zones : List Nat) : Bal zones [] := by
+  intro z _; simp [cnt]
+
+/-- the skip rule only ever lets a replica into a zone that is currently least occupied -/
+theorem bal_step {zones : List Nat} {chosen : List Sec} {rep : Sec} (hz : zones.length > 1)
+    (hb : Bal zones chosen) (hs : skipAZ zones chosen rep = false) : Bal zones (chosen ++ [rep]) := by
+  have hle : cnt rep.az chosen ≤ least chosen zones := by
+    simp only [skipAZ, hz, decide_true, Bool.true_and, Bool.and_eq_false_iff, decide_eq_false_iff_not] at hs
+    omega
+  intro z hzm
+  have h1 := cnt_append z chosen rep
+  have h2 := least_mono chosen rep zones
+  have h3 := hb z hzm
+  split at h1
+  · rename_i h; subst h; omega
+  · omega
+
+/-- every prefix of the chosen list is balanced -/
+def AllBal (zones : List Nat) (chosen : List Sec) : Prop := ∀ k, Bal zones (chosen.take k)
+
+theorem allBal_nil (zones : List Nat) : AllBal zones [] := by
+  intro k; simpa using bal_nil zones
+
+theorem allBal_step {zones : List Nat} {chosen : List Sec} {rep : Sec} (hz : zones.length > 1)
+    (hb : AllBal zones chosen) (hs : skipAZ zones chosen rep = false) : AllBal zones (chosen ++ [rep]) := by
+  intro k
+  by_cases hk : k ≤ chosen.length
+  · rw [List.take_append_of_le_length hk]; exact hb k
+  · have : (chosen ++ [rep]).take k = chosen ++ [rep] := by
+      apply List.take_of_length_le; simp; omega
+    rw [this]
+    have := hb chosen.length
+    rw [List.take_length] at this
+    exact bal_step hz this hs
+
+/-- The answer of the loop is the endpoint list of a sequence of sections of the ring, every
+    prefix of which is zone balanced (with at least two configured zones). -/
+theorem loop_balanced (lc : Bool) (ring : List Sec) (n : Nat) (zones : List Nat) (rf : Nat)
+    (hz : zones.length > 1) :
+    ∀ (fuel : Nat) (rest : List Sec) (skipped : Nat) (chosen : List Sec) (reps : List Nat),
+      (∀ s ∈ rest, s ∈ ring) → AllBal zones chosen →
+      loop lc ring n zones rf fuel rest skipped chosen = .ok reps →
+      ∃ final, reps = final.map (·.ep) ∧ AllBal zones final ∧ chosen <+: final ∧
+        ∀ s ∈ final, s ∈ chosen ∨ s ∈ ring := by
+  intro fuel
+  induction fuel with
+  | zero => intro rest skipped chosen reps _ _ h; simp [loop] at h
+  | succ fuel ih =>
+    intro rest skipped chosen reps hsub hb h
+    unfold loop at h
+    by_cases h1 : rf ≤ chosen.length
+    · simp only [h1, if_true] at h
+      injection h with h
+      exact ⟨chosen, h.symm, hb, List.prefix_refl _, fun s hs => Or.inl hs⟩
+    · simp only [h1, if_false] at h
+      by_cases h2 : (lc && skipped == n) = true
+      · simp [h2] at h
+      · simp only [h2] at h
+        cases hc : cursor ring rest with
+        | none => simp [hc] at h
+        | some p =>
+          obtain ⟨rep, rest'⟩ := p
+          simp only [hc] at h
+          obtain ⟨hrep, hsub'⟩ := cursor_mem hsub hc
+          by_cases ht : taken chosen rep.ep = true
+          · simp only [ht, if_true] at h
+            exact ih _ _ _ _ hsub' hb h
+          · simp only [ht] at h
+            by_cases hs : skipAZ zones chosen rep = true
+            · simp only [hs, if_true] at h
+              exact ih _ _ _ _ hsub' hb h
+            · simp only [hs] at h
+              have hs' : skipAZ zones chosen rep = false := by simpa using hs
+              obtain ⟨final, r1, r2, r3, r4⟩ := ih _ _ _ _ hsub' (allBal_step hz hb hs') h
+              refine ⟨final, r1, r2, ?_, fun s hs => ?_⟩
+              · exact List.IsPrefix.trans (List.prefix_append chosen [rep]) r3
+              · rcases r4 s hs with hm | hm
+                · rw [List.mem_append] at hm
+                  rcases hm with hm | hm
+                  · exact Or.inl hm
+                  · simp at hm; subst hm; exact Or.inr hrep
+                · exact Or.inr hm
+
 end Thanos.Hashring
